@@ -536,73 +536,420 @@ func init() {
 		if c.Thorough() {
 			versions = []string{"1", "2", "3", "4", "5", "6", "7", "8", "9", "10", "11"}
 		}
-		run := func(b *c14Builder, desc string) []byte {
-			c.Count("op:" + b.spec.Op)
-			c.Count("ver:" + b.spec.Ver)
-			return c.Run("C14.run", b.args(), "C14."+b.spec.Op, "", desc)
-		}
+		g := &c14Gen{c: c}
 		for vi, ver := range versions {
 			nh := c.Scale(1, 3)
 			for hi := 0; hi < nh; hi++ {
 				h := c14NewHistory(c.Rng, ver, fmt.Sprintf("%d%d", vi, hi))
-				// no fault, every provider behaviour
-				for _, mode := range c14ProvModes {
-					run(h.stateCase("csr", nil, mode, nil, ""), c14Desc("csr", ver, nil, mode))
-					run(h.stateCase("sj", nil, mode, h.joinOK, ""), c14Desc("sj", ver, nil, mode))
+				g.genState(h)
+				g.genChain(h)
+				g.genVras(h)
+				g.genLoad(h)
+				g.genBackfill(h)
+			}
+		}
+		// unknown room version: LoadAndVerify itself fails, for every server
+		h := c14NewHistory(c.Rng, "10", "zz")
+		b := newC14Builder("load", "no-such-version")
+		b.spec.R = b.ts([]string{h.room.evs[0].text, h.room.evs[1].text})
+		g.run(b, "load unknown version")
+		b = newC14Builder("bf", "no-such-version")
+		b.spec.From, b.spec.Limit, b.spec.Servers = []string{"$x"}, 5, []string{"s1", "s2"}
+		b.spec.BF = []c14BF{{Server: "s1", PDUs: b.ts([]string{h.room.evs[0].text})}, {Server: "s2", Err: true}}
+		g.run(b, "bf unknown version")
+	})
+}
+
+type c14Gen struct{ c *Ctx }
+
+func (g *c14Gen) run(b *c14Builder, desc string) []byte {
+	g.c.Count("op:" + b.spec.Op)
+	g.c.Count("ver:" + b.spec.Ver)
+	return g.c.Run("C14.run", b.args(), "C14."+b.spec.Op, "", desc)
+}
+
+func (g *c14Gen) genState(h *c14History) {
+	c, ver := g.c, string(h.room.ver)
+	// no fault, every provider behaviour
+	for _, mode := range c14ProvModes {
+		g.run(h.stateCase("csr", nil, mode, nil, ""), c14Desc("csr", ver, nil, mode))
+		g.run(h.stateCase("sj", nil, mode, h.joinOK, ""), c14Desc("sj", ver, nil, mode))
+	}
+	// every single fault
+	k := 0
+	for _, pos := range h.positions() {
+		for _, kind := range c14FaultKinds {
+			f := []c14Fault{{pos.list, pos.pos, kind}}
+			modes := []string{c14ProvModes[k%len(c14ProvModes)]}
+			k++
+			if kind == "missing" || (!h.room.v1 && (kind == "disallowed" || kind == "wrongroom")) {
+				modes = c14ProvModes
+			}
+			for _, mode := range modes {
+				c.Count("fault:" + kind)
+				c.Count("prov:" + mode)
+				g.run(h.stateCase("csr", f, mode, nil, ""), c14Desc("csr", ver, f, mode))
+				if k%3 == 0 {
+					g.run(h.stateCase("sj", f, mode, h.joinOK, ""), c14Desc("sj", ver, f, mode))
 				}
-				// every single fault
-				k := 0
+			}
+		}
+	}
+	// fault subsets of size 2 and 3
+	ps := h.positions()
+	for i := 0; i < c.Scale(150, 1500); i++ {
+		n := 2 + c.Rng.Intn(2)
+		var f []c14Fault
+		for j := 0; j < n; j++ {
+			p := ps[c.Rng.Intn(len(ps))]
+			f = append(f, c14Fault{p.list, p.pos, c14FaultKinds[c.Rng.Intn(len(c14FaultKinds))]})
+		}
+		mode := c14ProvModes[c.Rng.Intn(len(c14ProvModes))]
+		c.Count(fmt.Sprint("faults:", n))
+		op := "csr"
+		if i%3 == 0 {
+			op = "sj"
+		}
+		g.run(h.stateCase(op, f, mode, h.joinOK, ""), c14Desc(op, ver, f, mode))
+	}
+	// send_join: the join event itself
+	for _, join := range []*c14Ev{h.joinOK, h.joinOld} {
+		for _, jk := range []string{"", "badsig", "disallowed", "wrongroom", "nonstate"} {
+			for _, mode := range []string{"orig", "nothing", "none"} {
+				c.Count("join:" + join.name + ":" + jk)
+				g.run(h.stateCase("sj", nil, mode, join, jk), c14Desc("sj join="+join.name+"/"+jk, ver, nil, mode))
 				for _, pos := range h.positions() {
-					for _, kind := range c14FaultKinds {
-						f := []c14Fault{{pos.list, pos.pos, kind}}
-						modes := []string{c14ProvModes[k%len(c14ProvModes)]}
-						k++
-						if kind == "missing" || (!h.room.v1 && (kind == "disallowed" || kind == "wrongroom")) {
-							modes = c14ProvModes
-						}
-						for _, mode := range modes {
-							c.Count("fault:" + kind)
-							c.Count("prov:" + mode)
-							run(h.stateCase("csr", f, mode, nil, ""), c14Desc("csr", ver, f, mode))
-							if k%3 == 0 {
-								run(h.stateCase("sj", f, mode, h.joinOK, ""), c14Desc("sj", ver, f, mode))
-							}
-						}
-					}
-				}
-				// fault subsets of size 2 and 3
-				ps := h.positions()
-				for i := 0; i < c.Scale(150, 1500); i++ {
-					n := 2 + c.Rng.Intn(2)
-					var f []c14Fault
-					for j := 0; j < n; j++ {
-						p := ps[c.Rng.Intn(len(ps))]
-						f = append(f, c14Fault{p.list, p.pos, c14FaultKinds[c.Rng.Intn(len(c14FaultKinds))]})
-					}
-					mode := c14ProvModes[c.Rng.Intn(len(c14ProvModes))]
-					c.Count(fmt.Sprint("faults:", n))
-					op := "csr"
-					if i%3 == 0 {
-						op = "sj"
-					}
-					run(h.stateCase(op, f, mode, h.joinOK, ""), c14Desc(op, ver, f, mode))
-				}
-				// send_join: the join event itself
-				for _, join := range []*c14Ev{h.joinOK, h.joinOld} {
-					for _, jk := range []string{"", "badsig", "disallowed", "wrongroom", "nonstate"} {
-						for _, mode := range []string{"orig", "nothing", "none"} {
-							c.Count("join:" + join.name + ":" + jk)
-							run(h.stateCase("sj", nil, mode, join, jk), c14Desc("sj join="+join.name+"/"+jk, ver, nil, mode))
-							for _, pos := range h.positions() {
-								if c.Rng.Intn(4) == 0 {
-									f := []c14Fault{{pos.list, pos.pos, []string{"missing", "badsig", "disallowed"}[c.Rng.Intn(3)]}}
-									run(h.stateCase("sj", f, mode, join, jk), c14Desc("sj join="+join.name+"/"+jk, ver, f, mode))
-								}
-							}
-						}
+					if c.Rng.Intn(4) == 0 {
+						f := []c14Fault{{pos.list, pos.pos, []string{"missing", "badsig", "disallowed"}[c.Rng.Intn(3)]}}
+						g.run(h.stateCase("sj", f, mode, join, jk), c14Desc("sj join="+join.name+"/"+jk, ver, f, mode))
 					}
 				}
 			}
 		}
-	})
+	}
+}
+
+// ancestors of e through auth events, nearest first
+func c14Ancestors(e *c14Ev) []*c14Ev {
+	var out []*c14Ev
+	seen := map[*c14Ev]bool{}
+	var walk func(x *c14Ev)
+	walk = func(x *c14Ev) {
+		for _, a := range x.auth {
+			if !seen[a] {
+				seen[a] = true
+				out = append(out, a)
+				walk(a)
+			}
+		}
+	}
+	walk(e)
+	return out
+}
+
+var c14ChainModes = []string{"nothing", "error", "diff_once", "err_then_orig", "nonstate", "bad", "diff_then_nothing"}
+
+func (h *c14History) allEvents() []*c14Ev {
+	return append(append([]*c14Ev{}, h.room.evs...), h.joinOK, h.joinOld)
+}
+
+// VerifyEventAuthChain: every event of the history (and variants of it) x for every ancestor
+// every provider behaviour (the others answer with the original event)
+func (g *c14Gen) genChain(h *c14History) {
+	c, ver := g.c, string(h.room.ver)
+	mk := func(e *c14Ev, kind string, modes map[*c14Ev]string, dflt string) *c14Builder {
+		b := newC14Builder("chain", ver)
+		t := e.text
+		if kind != "" {
+			t = h.variant(e, kind)
+		}
+		b.spec.E = b.t(t)
+		for _, x := range h.room.evs {
+			m := dflt
+			if mm, ok := modes[x]; ok {
+				m = mm
+			}
+			b.script(h, x.id, x, m)
+		}
+		return b
+	}
+	k := 0
+	for _, e := range h.allEvents() {
+		for _, kind := range []string{"", "disallowed", "wrongroom", "nonstate", "badsig"} {
+			c.Count("chain:event:" + kind)
+			g.run(mk(e, kind, nil, "orig"), fmt.Sprintf("chain v%s %s/%s all orig", ver, e.name, kind))
+		}
+		g.run(mk(e, "", nil, "nothing"), fmt.Sprintf("chain v%s %s provider empty", ver, e.name))
+		anc := c14Ancestors(e)
+		for ai, x := range anc {
+			modes := c14ChainModes
+			if ai >= len(e.auth) && !c.Thorough() {
+				modes = []string{c14ChainModes[k%len(c14ChainModes)]}
+				k++
+			}
+			for _, m := range modes {
+				c.Count("chain:prov:" + m)
+				g.run(mk(e, "", map[*c14Ev]string{x: m}, "orig"), fmt.Sprintf("chain v%s %s: %s=%s", ver, e.name, x.name, m))
+			}
+		}
+		for i := 0; i < c.Scale(3, 20); i++ {
+			modes := map[*c14Ev]string{}
+			for _, x := range anc {
+				if c.Rng.Intn(3) == 0 {
+					modes[x] = c14ChainModes[c.Rng.Intn(len(c14ChainModes))]
+				}
+			}
+			g.run(mk(e, "", modes, "orig"), fmt.Sprintf("chain v%s %s random provider", ver, e.name))
+		}
+	}
+}
+
+var c14IDsModes = []string{"exact", "minus", "plus", "empty", "err", "superset", "minuslast"}
+var c14StateModes = []string{"proper", "err", "minus", "nil", "swap", "bad", "other", "nonstate", "empty", "badsigval"}
+
+// sp adds the state provider's answers for the event `text` (a variant of e).
+func (b *c14Builder) sp(h *c14History, text string, e *c14Ev, idsMode, stMode string) {
+	id := c14IDOf(h.room.ver, text)
+	if id == "" {
+		return
+	}
+	for _, s := range b.spec.SP {
+		if s.ID == id {
+			return
+		}
+	}
+	s := c14SP{ID: id, IDs: []string{}, Keys: []string{}, Vals: []int{}}
+	var authIDs []string
+	for _, a := range e.auth {
+		authIDs = append(authIDs, a.id)
+	}
+	switch idsMode {
+	case "exact":
+		s.IDs = append(s.IDs, authIDs...)
+	case "minus":
+		if len(authIDs) > 0 {
+			s.IDs = append(s.IDs, authIDs[1:]...)
+		}
+	case "minuslast":
+		if len(authIDs) > 0 {
+			s.IDs = append(s.IDs, authIDs[:len(authIDs)-1]...)
+		}
+	case "plus":
+		s.IDs = append(append(s.IDs, "$extra:h0"), authIDs...)
+	case "empty":
+	case "err":
+		s.IDsErr = true
+	case "superset":
+		for _, x := range h.state {
+			s.IDs = append(s.IDs, x.id)
+		}
+		s.IDs = append(s.IDs, authIDs...)
+	}
+	for i, a := range e.auth {
+		key, val := a.id, b.t(a.text)
+		switch stMode {
+		case "minus":
+			if i == 0 {
+				continue
+			}
+		case "nil":
+			if i == 0 {
+				val = -1
+			}
+		case "swap":
+			if i == 0 && len(e.auth) > 1 {
+				val = b.t(e.auth[1].text)
+			}
+		case "bad":
+			if i == len(e.auth)-1 {
+				val = b.t(h.variant(a, "disallowed"))
+			}
+		case "badsigval":
+			if i == len(e.auth)-1 {
+				val = b.t(h.variant(a, "badsig"))
+			}
+		case "other":
+			if i == 0 {
+				val = b.t(h.altOther.text)
+			}
+		case "nonstate":
+			if i == len(e.auth)-1 {
+				val = b.t(h.variant(a, "nonstate"))
+			}
+		}
+		s.Keys, s.Vals = append(s.Keys, key), append(s.Vals, val)
+	}
+	switch stMode {
+	case "err":
+		s.StateErr = true
+	case "empty":
+		s.Keys, s.Vals = []string{}, []int{}
+	case "proper":
+		// unrelated state as well
+		for _, x := range h.state {
+			dup := false
+			for _, k := range s.Keys {
+				dup = dup || k == x.id
+			}
+			if !dup {
+				s.Keys, s.Vals = append(s.Keys, x.id), append(s.Vals, b.t(x.text))
+			}
+		}
+	}
+	b.spec.SP = append(b.spec.SP, s)
+}
+
+// VerifyAuthRulesAtState: event x allowValidation x state IDs x state
+func (g *c14Gen) genVras(h *c14History) {
+	c, ver := g.c, string(h.room.ver)
+	k := 0
+	for _, e := range h.allEvents() {
+		for _, kind := range []string{"", "disallowed", "wrongroom"} {
+			t := e.text
+			if kind != "" {
+				t = h.variant(e, kind)
+			}
+			for _, av := range []bool{true, false} {
+				for _, im := range c14IDsModes {
+					sms := c14StateModes
+					if kind != "" || (!c.Thorough() && im != "minus" && im != "exact") {
+						sms = []string{c14StateModes[k%len(c14StateModes)]}
+						k++
+					}
+					for _, sm := range sms {
+						b := newC14Builder("vras", ver)
+						b.spec.E, b.spec.AV = b.t(t), av
+						b.sp(h, t, e, im, sm)
+						c.Count("vras:ids:" + im)
+						c.Count("vras:state:" + sm)
+						g.run(b, fmt.Sprintf("vras v%s %s/%s av=%v ids=%s state=%s", ver, e.name, kind, av, im, sm))
+					}
+				}
+			}
+		}
+	}
+	// no answer scripted at all
+	b := newC14Builder("vras", ver)
+	b.spec.E = b.t(h.room.evs[2].text)
+	g.run(b, "vras no script")
+}
+
+var c14LoadFaults = []string{"", "", "", "badsig", "disallowed", "malformed", "oversize_p", "oversize_np", "wrongroom", "malformed2", "nonstate"}
+
+// pdus picks raw inputs for LoadAndVerify / a backfill transaction: events of the history in
+// random order, some of them faulty, some twice; provider answers for what they need.
+func (g *c14Gen) pdus(h *c14History, b *c14Builder, n int) []int {
+	c := g.c
+	evs := h.allEvents()
+	var out []int
+	for i := 0; i < n; i++ {
+		e := evs[c.Rng.Intn(len(evs))]
+		kind := c14LoadFaults[c.Rng.Intn(len(c14LoadFaults))]
+		t := e.text
+		if kind != "" {
+			t = h.variant(e, kind)
+		}
+		c.Count("load:item:" + kind)
+		out = append(out, b.t(t))
+		if c.Rng.Intn(8) == 0 {
+			out = append(out, b.t(t))
+		}
+		im := []string{"exact", "exact", "minus", "plus", "err", "superset", "empty"}[c.Rng.Intn(7)]
+		sm := c14StateModes[c.Rng.Intn(len(c14StateModes))]
+		if c.Rng.Intn(2) == 0 {
+			sm = "proper"
+		}
+		b.sp(h, t, e, im, sm)
+	}
+	return out
+}
+
+func (g *c14Gen) provScripts(h *c14History, b *c14Builder) {
+	c := g.c
+	p := c.Rng.Intn(4) // 0: all orig, else each ID misbehaves with probability 1/(2p+1)
+	for _, x := range h.room.evs {
+		m := "orig"
+		if p > 0 && c.Rng.Intn(2*p+1) == 0 {
+			m = c14ChainModes[c.Rng.Intn(len(c14ChainModes))]
+		}
+		b.script(h, x.id, x, m)
+	}
+}
+
+func (g *c14Gen) genLoad(h *c14History) {
+	c, ver := g.c, string(h.room.ver)
+	// the whole history, in order and reversed, honest providers
+	for _, rev := range []bool{false, true} {
+		b := newC14Builder("load", ver)
+		for i := range h.room.evs {
+			e := h.room.evs[i]
+			if rev {
+				e = h.room.evs[len(h.room.evs)-1-i]
+			}
+			b.spec.R = append(b.spec.R, b.t(e.text))
+			b.sp(h, e.text, e, "exact", "proper")
+		}
+		for _, x := range h.room.evs {
+			b.script(h, x.id, x, "orig")
+		}
+		g.run(b, fmt.Sprintf("load v%s whole history rev=%v", ver, rev))
+	}
+	// every single event x every class of failure, alone
+	for _, e := range h.allEvents() {
+		for _, kind := range c14LoadFaults[2:] {
+			for _, im := range []string{"exact", "minus", "err"} {
+				for _, sm := range []string{"proper", "err", "bad"} {
+					if !c.Thorough() && c.Rng.Intn(3) != 0 {
+						continue
+					}
+					b := newC14Builder("load", ver)
+					t := e.text
+					if kind != "" {
+						t = h.variant(e, kind)
+					}
+					b.spec.R = []int{b.t(t)}
+					b.sp(h, t, e, im, sm)
+					g.provScripts(h, b)
+					c.Count("load:single:" + kind)
+					g.run(b, fmt.Sprintf("load v%s single %s/%s ids=%s state=%s", ver, e.name, kind, im, sm))
+				}
+			}
+		}
+	}
+	for i := 0; i < c.Scale(60, 600); i++ {
+		b := newC14Builder("load", ver)
+		b.spec.R = g.pdus(h, b, c.Rng.Intn(7))
+		g.provScripts(h, b)
+		g.run(b, fmt.Sprintf("load v%s random", ver))
+	}
+}
+
+func (g *c14Gen) genBackfill(h *c14History) {
+	c, ver := g.c, string(h.room.ver)
+	for i := 0; i < c.Scale(60, 600); i++ {
+		b := newC14Builder("bf", ver)
+		ns := c.Rng.Intn(4)
+		for s := 0; s < ns; s++ {
+			name := fmt.Sprint("s", s)
+			b.spec.Servers = append(b.spec.Servers, name)
+			switch c.Rng.Intn(5) {
+			case 0:
+				b.spec.BF = append(b.spec.BF, c14BF{Server: name, Err: true})
+			case 1: // not scripted: error
+			default:
+				b.spec.BF = append(b.spec.BF, c14BF{Server: name, PDUs: g.pdus(h, b, c.Rng.Intn(5))})
+			}
+		}
+		if c.Rng.Intn(8) != 0 {
+			b.spec.From = []string{h.room.evs[len(h.room.evs)-1].id}
+			if c.Rng.Intn(3) == 0 {
+				b.spec.From = append(b.spec.From, h.room.evs[0].id)
+			}
+		}
+		b.spec.Limit = []int{-1, 0, 1, 2, 3, 5, 100}[c.Rng.Intn(7)]
+		c.Count(fmt.Sprint("bf:limit:", b.spec.Limit))
+		c.Count(fmt.Sprint("bf:servers:", ns))
+		g.provScripts(h, b)
+		g.run(b, fmt.Sprintf("bf v%s random limit=%d servers=%d", ver, b.spec.Limit, ns))
+	}
 }
